@@ -31,20 +31,21 @@ Bnd(T) ==
                    ZSub(P(h - 1), Z1), P(T.w - 2), ZOf(5) >>)
 \* all values of an 8-bit type
 All8(T) == IF T.sg THEN [i \in 1..256 |-> ZOf(i - 129)] ELSE [i \in 1..256 |-> ZOf(i - 1)]
-\* exhaustive for 8 bits (thorough), boundary lattice otherwise
-Lat(T) == IF T.w = 8 /\ Tier = "thorough" THEN All8(T) ELSE
-          IF T.w = 8 THEN PadTo4(Bnd(T) \o [i \in 1..24 |-> All8(T)[((i * 37 + Seed * 11) % 256) + 1]])
-          ELSE Bnd(T)
-NL(T) == Len(Lat(T))
+\* boundary lattice (plus 24 seeded values for 8 bits); exhaustive for 8 bits in the thorough tier for the
+\* element-wise kinds (unary, binary, vector-scalar, mixed signedness): all 256 x 256 operand pairs
+LatB(T) == IF T.w = 8 THEN PadTo4(Bnd(T) \o [i \in 1..24 |-> All8(T)[((i * 37 + Seed * 11) % 256) + 1]]) ELSE Bnd(T)
+XKinds == {"u", "b", "vs", "sv", "m"}
+Lat(T, kd) == IF T.w = 8 /\ Tier = "thorough" /\ kd \in XKinds THEN All8(T) ELSE LatB(T)
+NL(T, kd) == Len(Lat(T, kd))
 W1(i, n) == ((i - 1) % n) + 1
 Lead4(n) == {i \in 1..n : i % 4 = 1}
 
-VA(T, i)  == [l \in 1..4 |-> Lat(T)[W1(i + l - 1, NL(T))]]
-VB(T, j)  == [l \in 1..4 |-> Lat(T)[W1(j + 3 * (l - 1), NL(T))]]
-VC(T, k)  == [l \in 1..4 |-> Lat(T)[W1(k + 5 * (l - 1), NL(T))]]
+VA(T, kd, i)  == [l \in 1..4 |-> Lat(T, kd)[W1(i + l - 1, NL(T, kd))]]
+VB(T, kd, j)  == [l \in 1..4 |-> Lat(T, kd)[W1(j + 3 * (l - 1), NL(T, kd))]]
+VC(T, kd, k)  == [l \in 1..4 |-> Lat(T, kd)[W1(k + 5 * (l - 1), NL(T, kd))]]
 \* operand of the other signedness (mixed operations)
 Other(T) == Ty(T.w, ~T.sg)
-VO(T, j)  == [l \in 1..4 |-> Lat(Other(T))[W1(j + 3 * (l - 1), NL(Other(T)))]]
+VO(T, kd, j)  == [l \in 1..4 |-> Lat(Other(T), kd)[W1(j + 3 * (l - 1), NL(Other(T), kd))]]
 
 \* shift counts: in range, at and beyond the width, negative, large
 Counts(T) == << Z0, Z1, ZOf(T.w - 1), ZOf(T.w), ZOf(T.w + 1), ZOf(2 * T.w), ZM1, ZOf(7), ZOf(3), ZOf(127),
@@ -64,38 +65,40 @@ Perm4 == SetToSeq({p \in [1..4 -> 1..4] : \A x, y \in 1..4 : x # y => p[x] # p[y
 Pat(p, x, y) == CASE p = 25 -> <<x, y, y, x>> [] p = 26 -> <<y, x, x, x>> [] p = 27 -> <<y, y, x, y>> [] p = 28 -> <<y, y, y, x>>
 Red2 == {"dot", "distance_squared", "manhattan_distance", "checked_manhattan_distance", "chebyshev_distance"}
 
-CallsOf(T) ==
-         [t : {T}, kind : {"u"},  op : UnOps(T), i : 1..NL(T), j : {0}, k : {0}]
-    \cup [t : {T}, kind : {"b"},  op : BinOps \cup CmpOps, i : Lead4(NL(T)), j : 1..NL(T), k : {0}]
-    \cup [t : {T}, kind : {"vs"}, op : ScalarOps \cup ScalarBitOps, i : Lead4(NL(T)), j : 1..NL(T), k : {0}]
-    \cup [t : {T}, kind : {"sv"}, op : ScalarOps, i : Lead4(NL(T)), j : 1..NL(T), k : {0}]
-    \cup [t : {T}, kind : {"m"},  op : MixedOps(T), i : Lead4(NL(T)), j : 1..NL(Other(T)), k : {0}]
-    \cup [t : {T}, kind : {"sh"}, op : {"shl", "shr"}, i : Lead4(NL(T)), j : 1..Len(Counts(T)), k : {0}]
-    \cup [t : {T}, kind : {"shv"}, op : {"shl", "shr"}, i : Lead4(NL(T)), j : 1..Len(Counts(T)), k : {0}]
-    \cup [t : {T}, kind : {"t"},  op : {"clamp"}, i : Lead4(NL(T)), j : Lead4(NL(T)), k : Lead4(NL(T))]
-    \cup [t : {T}, kind : {"r1"}, op : Red1Fold, i : 1..NL(T), j : {0}, k : {1}]
-    \cup [t : {T}, kind : {"r1"}, op : Red1Ext, i : Lead4(NL(T)), j : {0}, k : 1..24]        \* every ordering of 4 values
-    \cup [t : {T}, kind : {"r1"}, op : Red1Ext, i : 1..NL(T), j : Lead4(NL(T)), k : 25..28]  \* tie patterns
-    \cup [t : {T}, kind : {"r2"}, op : Red2, i : 1..NL(T), j : Lead4(NL(T)), k : {0}]
-    \cup [t : {T}, kind : {"x"},  op : {"cross"}, i : 1..NL(T), j : Lead4(NL(T)), k : {0}]
-    \cup [t : {T}, kind : {"f"},  op : {"sum", "product"}, i : Lead4(NL(T)), j : Lead4(NL(T)), k : 0..3]
-
-Calls == IF Only = "cmp" THEN UNION {[t : {T}, kind : {"b"}, op : CmpOps, i : Lead4(NL(T)), j : 1..NL(T), k : {0}] : T \in Types}
-         ELSE UNION {CallsOf(T) : T \in Types}
+\* the calls of a type, as a sequence of sets: Init draws from each separately (their union would exceed
+\* the size TLC is willing to build as one explicit set in the thorough tier)
+CallParts(T) == <<
+    [t : {T}, kind : {"u"},  op : UnOps(T), i : 1..NL(T, "u"), j : {0}, k : {0}],
+    [t : {T}, kind : {"b"},  op : BinOps \cup CmpOps, i : Lead4(NL(T, "b")), j : 1..NL(T, "b"), k : {0}],
+    [t : {T}, kind : {"vs"}, op : ScalarOps \cup ScalarBitOps, i : Lead4(NL(T, "vs")), j : 1..NL(T, "vs"), k : {0}],
+    [t : {T}, kind : {"sv"}, op : ScalarOps, i : Lead4(NL(T, "sv")), j : 1..NL(T, "sv"), k : {0}],
+    [t : {T}, kind : {"m"},  op : MixedOps(T), i : Lead4(NL(T, "m")), j : 1..NL(Other(T), "m"), k : {0}],
+    [t : {T}, kind : {"sh"}, op : {"shl", "shr"}, i : Lead4(NL(T, "sh")), j : 1..Len(Counts(T)), k : {0}],
+    [t : {T}, kind : {"shv"}, op : {"shl", "shr"}, i : Lead4(NL(T, "shv")), j : 1..Len(Counts(T)), k : {0}],
+    [t : {T}, kind : {"t"},  op : {"clamp"}, i : Lead4(NL(T, "t")), j : Lead4(NL(T, "t")), k : Lead4(NL(T, "t"))],
+    [t : {T}, kind : {"r1"}, op : Red1Fold, i : 1..NL(T, "r1"), j : {0}, k : {1}],
+    [t : {T}, kind : {"r1"}, op : Red1Ext, i : Lead4(NL(T, "r1")), j : {0}, k : 1..24],           \* every ordering of 4 values
+    [t : {T}, kind : {"r1"}, op : Red1Ext, i : 1..NL(T, "r1"), j : Lead4(NL(T, "r1")), k : 25..28],  \* tie patterns
+    [t : {T}, kind : {"r2"}, op : Red2, i : 1..NL(T, "r2"), j : Lead4(NL(T, "r2")), k : {0}],
+    [t : {T}, kind : {"x"},  op : {"cross"}, i : 1..NL(T, "x"), j : Lead4(NL(T, "x")), k : {0}],
+    [t : {T}, kind : {"f"},  op : {"sum", "product"}, i : Lead4(NL(T, "f")), j : Lead4(NL(T, "f")), k : 0..3] >>
+CmpPart(T) == [t : {T}, kind : {"b"}, op : CmpOps, i : Lead4(NL(T, "b")), j : 1..NL(T, "b"), k : {0}]
+InCalls(c) == IF Only = "cmp" THEN \E T \in Types : c \in CmpPart(T)
+              ELSE \E T \in Types : \E n \in 1..14 : c \in CallParts(T)[n]
 
 Args(c) ==
     LET T == c.t IN
-    CASE c.kind = "u" -> <<VA(T, c.i)>>
-      [] c.kind = "r1" -> IF c.k <= 24 THEN <<[l \in 1..4 |-> VA(T, c.i)[Perm4[c.k][l]]]>>
-                          ELSE <<Pat(c.k, Lat(T)[c.i], Lat(T)[c.j])>>
-      [] c.kind \in {"b", "r2", "x"} -> <<VA(T, c.i), VB(T, c.j)>>
-      [] c.kind = "vs" -> <<VA(T, c.i), Lat(T)[c.j]>>
-      [] c.kind = "sv" -> <<Lat(T)[c.j], VA(T, c.i)>>
-      [] c.kind = "m"  -> <<VA(T, c.i), VO(T, c.j)>>
-      [] c.kind = "sh" -> <<VA(T, c.i), Counts(T)[c.j]>>
-      [] c.kind = "shv" -> <<VA(T, c.i), [l \in 1..4 |-> Counts(T)[W1(c.j + l - 1, Len(Counts(T)))]]>>
-      [] c.kind = "t"  -> <<VA(T, c.i), VB(T, c.j), VC(T, c.k)>>
-      [] c.kind = "f"  -> <<[n \in 1..c.k |-> IF n = 1 THEN VA(T, c.i) ELSE IF n = 2 THEN VB(T, c.j) ELSE VA(T, c.j)]>>
+    CASE c.kind = "u" -> <<VA(T, c.kind, c.i)>>
+      [] c.kind = "r1" -> IF c.k <= 24 THEN <<[l \in 1..4 |-> VA(T, c.kind, c.i)[Perm4[c.k][l]]]>>
+                          ELSE <<Pat(c.k, Lat(T, c.kind)[c.i], Lat(T, c.kind)[c.j])>>
+      [] c.kind \in {"b", "r2", "x"} -> <<VA(T, c.kind, c.i), VB(T, c.kind, c.j)>>
+      [] c.kind = "vs" -> <<VA(T, c.kind, c.i), Lat(T, c.kind)[c.j]>>
+      [] c.kind = "sv" -> <<Lat(T, c.kind)[c.j], VA(T, c.kind, c.i)>>
+      [] c.kind = "m"  -> <<VA(T, c.kind, c.i), VO(T, c.kind, c.j)>>
+      [] c.kind = "sh" -> <<VA(T, c.kind, c.i), Counts(T)[c.j]>>
+      [] c.kind = "shv" -> <<VA(T, c.kind, c.i), [l \in 1..4 |-> Counts(T)[W1(c.j + l - 1, Len(Counts(T)))]]>>
+      [] c.kind = "t"  -> <<VA(T, c.kind, c.i), VB(T, c.kind, c.j), VC(T, c.kind, c.k)>>
+      [] c.kind = "f"  -> <<[n \in 1..c.k |-> IF n = 1 THEN VA(T, c.kind, c.i) ELSE IF n = 2 THEN VB(T, c.kind, c.j) ELSE VA(T, c.kind, c.j)]>>
 
 PerN(E(_)) == [n2 |-> E(2), n3 |-> E(3), n4 |-> E(4)]
 Prof(E(_)) == [dbg |-> E("dbg"), rel |-> E("rel")]
@@ -147,7 +150,7 @@ EncArgs(c) ==
       [] c.kind = "t"  -> <<EncV(a[1]), EncV(a[2]), EncV(a[3])>>
       [] c.kind = "f"  -> <<[n \in 1..Len(a[1]) |-> EncV(a[1][n])]>>
 
-Init == ph = "call" /\ call \in Calls /\ res = <<>>
+Init == ph = "call" /\ InCalls(call) /\ res = <<>>
 Return == ph = "call" /\ ph' = "ret" /\ res' = Eval(call) /\ UNCHANGED call
 Next == Return
 Spec == Init /\ [][Next]_vars
